@@ -23,6 +23,7 @@ func TestProp(t *testing.T) {
 	addTraces(r)
 	addPortions(r)
 	addProf(r)
+	addProfMerge(r)
 	addTail(r)
 	r.Main()
 }
